@@ -512,7 +512,7 @@ func hashEngine(c *Ctx) {
 	}
 	deeps := []int{16, 21, 40}
 	if c.Tier == "thorough" {
-		deeps = []int{3, 8, 15, 16, 17, 31, 32, 33, 63, 64, 65, 100, 130, 260}
+		deeps = []int{3, 15, 16, 17, 31, 32, 33, 64, 65, 130}
 	}
 	for _, d := range deeps {
 		corpus = append(corpus, deepChain(d))
@@ -557,6 +557,9 @@ func hashEngine(c *Ctx) {
 		seenOp := map[string]string{}
 		for ei, ed := range edits {
 			if c.Tier != "thorough" && k >= len(corpus) && ei%3 != k%3 {
+				continue
+			}
+			if len(fsx) > 45 && ei%9 != k%9 { // very deep chains: a ninth of the edits (each op carries the whole bucket)
 				continue
 			}
 			op := "hash bucket id " + filesetRecs(ed.f, ident(len(ed.f)), idHash)
